@@ -207,6 +207,38 @@ func wrongLit(t *pgen.Type) *pgen.Exp {
 func applyIllTyped(p *pgen.Program, r *rand.Rand, kind string) *c07Mutation {
 	pipes, _ := reachable(p)
 	r.Shuffle(len(pipes), func(i, j int) { pipes[i], pipes[j] = pipes[j], pipes[i] })
+	if kind == "split-wrong-element-level" {
+		// A map call splitting REF (a collection of collections X) into a
+		// parameter whose type is X's element type: one level too deep.
+		for _, pl := range pipes {
+			for _, c := range pl.Calls {
+				if !c.Map {
+					continue
+				}
+				ins, _, _, _ := p.Callable(c.Callee)
+				for _, b := range c.Binds {
+					if !b.Split || (b.Exp.Kind != pgen.ERefCall && b.Exp.Kind != pgen.ERefSelf) {
+						continue
+					}
+					for _, in := range ins {
+						if in.Name == b.Id && (in.Type.Kind == pgen.KArray || in.Type.Kind == pgen.KTMap) {
+							lang, src := "comp", "/bin/true ZZMUT"
+							if len(p.Stages) > 0 {
+								lang = p.Stages[0].SrcLang
+							}
+							st := &pgen.Stage{Name: "ZZMUT", Ins: []pgen.Param{{Name: "x", Type: in.Type.Elem}},
+								Outs: []pgen.Param{{Name: "y", Type: pgen.TInt}}, SrcLang: lang, Src: src, File: pl.File}
+							p.Stages = append(p.Stages, st)
+							pl.Calls = append(pl.Calls, &pgen.Call{Callee: "ZZMUT", Map: true,
+								Binds: []pgen.Binding{{Id: "x", Exp: b.Exp, Split: true}}})
+							return &c07Mutation{Kind: kind, Pipeline: pl.Name, Call: "ZZMUT", Param: "x"}
+						}
+					}
+				}
+			}
+		}
+		return nil
+	}
 	for _, pl := range pipes {
 		calls := append([]*pgen.Call{}, pl.Calls...)
 		r.Shuffle(len(calls), func(i, j int) { calls[i], calls[j] = calls[j], calls[i] })
@@ -354,7 +386,7 @@ func containsOnlyNull(e *pgen.Exp) bool {
 }
 
 var c07Kinds = []string{"wrong-base-type", "array-depth-plus", "array-depth-minus", "array-vs-map", "unknown-parameter",
-	"struct-missing-field", "struct-extra-field", "inconsistent-split", "nonexistent-output", "missing-parameter"}
+	"struct-missing-field", "struct-extra-field", "inconsistent-split", "nonexistent-output", "missing-parameter", "split-wrong-element-level"}
 
 type c07Input struct {
 	Files map[string]string `json:"files"`
